@@ -449,6 +449,15 @@ impl Case {
                     ),
                 );
             }
+            // C15 (REG2 layout, decode side): the accepted reply's id is bytes 2..258 of the frame, all 256 of them
+            if self.reg.srtla_id != want {
+                let first = (0..256).find(|k| self.reg.srtla_id[*k] != want[*k]).unwrap_or(0);
+                mon.fail(
+                    "C15",
+                    "reg2-id-not-decoded-in-full",
+                    format!("{what}: the id adopted from a 258-byte REG2 differs from frame bytes 2..258 (first difference at id offset {first})"),
+                );
+            }
             self.cur_id = want;
             self.outstanding.clear();
             self.acc_since_bcast = true;
